@@ -1474,7 +1474,7 @@ reg("C13", ["Props.C13_pulled_debug_has_inputs", "Props.C13_flag_off_no_debug", 
     with_malformed(run_G, ["normal-on-debug"]), ASSUME_G)
 reg("C11", ["Props.C11_setup_at_most_once", "Props.C11_first_value_kept", "VM.not_entered_of_res", "Props.C11_runs_only_what_selection_needs", "Props.C11_later_executions_see_first_value",
             "Props.C11_kept_executors", "Props.C11_kept_executor_sees_current_setup", "Props.C11_setup_value_independent_of_arguments",
-            "Props.C13_C11_build_rule", "Props.C15_accepted_table_call_after_history_is_fresh"], with_malformed(run_H, ["setup-on-normal", "setup-on-arg"]), ASSUME_H)
+            "Props.C13_C11_build_rule", "Props.C15_accepted_table_call_after_history_is_fresh", "Props.C11_setup_selection", "Props.C12_targets_only"], with_malformed(run_H, ["setup-on-normal", "setup-on-arg"]), ASSUME_H)
 def run_H_and_composeprobe(pid, tier, seed):
     cov, fs, _ = run_H(pid, tier, seed)
     covc, fsc, _ = run_C(pid, tier, seed)
